@@ -17,19 +17,32 @@ EXTENDS Integers, Sequences, FiniteSets
 
 -----------------------------------------------------------------------------
 (* Kafka releases by index: 0 "0.10.1.0", 1 "0.10.2.0", 2 "0.11.0.0", 3 "1.0.0.0",
-   4 "2.0.0.0", 5 "2.4.0.0".  MaxVer[api][kv+1] = highest request version a broker of
+   4 "2.0.0.0", 5 "2.4.0.0", 6 "0.10.2.1" (appended; Rank orders them).  MaxVer[api][kv+1] = highest request version a broker of
    that release understands (Kafka protocol guide; generous where releases in between
    are not in the index), -1 = the API does not exist there.                        *)
 MaxVer ==
-  [ CreateTopicsRequest                |-> << 0,  1,  2,  2,  3,  5>>,
-    DeleteTopicsRequest                |-> << 0,  0,  1,  2,  3,  4>>,
-    CreatePartitionsRequest            |-> <<-1, -1, -1,  0,  1,  2>>,
-    AlterPartitionReassignmentsRequest |-> <<-1, -1, -1, -1, -1,  0>>,
-    DeleteRecordsRequest               |-> <<-1, -1,  0,  0,  1,  1>>,
-    OffsetFetchRequest                 |-> << 1,  2,  3,  3,  4,  6>>,
-    DescribeGroupsRequest              |-> << 0,  0,  1,  1,  2,  4>>,
-    DeleteGroupsRequest                |-> <<-1, -1, -1, -1,  1,  2>>,
-    DescribeLogDirsRequest             |-> <<-1, -1, -1,  0,  1,  1>> ]
+  [ CreateTopicsRequest                |-> << 0,  1,  2,  2,  3,  5,  1>>,
+    DeleteTopicsRequest                |-> << 0,  0,  1,  2,  3,  4,  0>>,
+    CreatePartitionsRequest            |-> <<-1, -1, -1,  0,  1,  2, -1>>,
+    AlterPartitionReassignmentsRequest |-> <<-1, -1, -1, -1, -1,  0, -1>>,
+    DeleteRecordsRequest               |-> <<-1, -1,  0,  0,  1,  1, -1>>,
+    OffsetFetchRequest                 |-> << 1,  2,  3,  3,  4,  6,  2>>,
+    DescribeGroupsRequest              |-> << 0,  0,  1,  1,  2,  4,  0>>,
+    DeleteGroupsRequest                |-> <<-1, -1, -1, -1,  1,  2, -1>>,
+    DescribeLogDirsRequest             |-> <<-1, -1, -1,  0,  1,  1, -1>> ]
+
+\* position of release index kv in release order
+Rank == <<1, 2, 4, 5, 6, 7, 3>>
+AtLeast(kv, j) == Rank[kv + 1] >= Rank[j + 1]
+
+(* The request version admin.go in /repo selects per configured release. Soft reference only
+   (drift): the property does not prescribe exact versions, newer supported versions are as good;
+   what a too old / too new version breaks is caught by the functional clauses.              *)
+ExpectedVer(op, kv) ==
+  CASE op = "CreateTopic" -> (IF AtLeast(kv, 3) THEN 2 ELSE IF AtLeast(kv, 2) THEN 1 ELSE 0)
+    [] op = "DeleteTopic" -> (IF AtLeast(kv, 2) THEN 1 ELSE 0)
+    [] op = "ListConsumerGroupOffsets" -> (IF AtLeast(kv, 1) THEN 2 ELSE 1)
+    [] OTHER -> 0
 
 ApiOf ==
   [ CreateTopic                 |-> "CreateTopicsRequest",
@@ -134,10 +147,14 @@ CtlRetViol(case, att, res, tail) ==
 
 -----------------------------------------------------------------------------
 (* ---------- leader- / coordinator-bound operations ----------
-   case = [op, kv, own, itemv, bfault]: own[i] the broker that leads partition i /
+   case = [op, kv, own, itemv, bfault, all, gerr]: own[i] the broker that leads partition i /
    coordinates group i, itemv[i] the error code the owner reports for item i (0 = none),
    bfault[b] in {"none","conn","inc"} (whole request fails: connection dropped / answer
-   without the topic or group).  reqs = sequence of [b, api, v, items, ans] with ans in
+   without the topic or group); ListConsumerGroupOffsets only: all = the caller passed a nil
+   partition map ("every partition the group has offsets for", expressible from request v2 =
+   release 0.10.2 on), gerr = a group-level error code the coordinator has for the whole group
+   (0 = none; a version-faithful coordinator puts it at the top level from v2 on and on every
+   LISTED partition before).  reqs = sequence of [b, api, v, items, ans] with ans in
    {"items","conn","inc"}.  res = [cls, code, reported, filed]: reported = items whose error
    code is visible in the value handed to the caller (DescribeConsumerGroups,
    ListConsumerGroupOffsets and DescribeLogDirs return the per-item codes inside their
@@ -159,6 +176,7 @@ SpreadRetViol(case, reqs, res) ==
                      case.itemv[i] # 0 /\ \E k \in 1..Len(reqs) : reqs[k].ans = "items" /\ i \in reqs[k].items}
       allOk == /\ \A i \in DOMAIN case.itemv : case.itemv[i] = 0
                /\ \A b \in DOMAIN case.bfault : case.bfault[b] = "none"
+               /\ case.gerr = 0
   IN
      When(res.cls \in {"hang", "panic"}, "completes")
      \* a call that reports complete success has sent every item (to its owner: sent_to_owner)
@@ -166,6 +184,9 @@ SpreadRetViol(case, reqs, res) ==
      \* "an error reported by any broker or for any item makes the operation report an error"
      \cup When(failedWhole /\ res.cls = "nil", "broker_error_reported")
      \cup When(res.cls = "nil" /\ \E i \in badItems : i \notin res.reported, "item_error_reported")
+     \* the coordinator's verdict on the whole group reaches the caller (as err or inside the value)
+     \cup When(case.gerr # 0 /\ (\E k \in 1..Len(reqs) : reqs[k].ans = "items") /\ res.cls = "nil" /\ res.reported = {},
+               "group_error_reported")
      \* "report its verdict": what a broker answered is handed to the caller as THAT broker's answer
      \cup When(\E p \in res.filed : p[1] # p[2], "answer_filed_under_its_broker")
      \cup When(case.op \in FiledOps /\ res.cls = "nil"
